@@ -1757,6 +1757,64 @@ def error_scenarios(rng, count):
     return out
 
 
+def interleaved_failure_scenarios(endings=("uncaught", "caught-in-fiber", "caught-by-caller")):
+    """(the ending `caught-in-fiber` runs a catch clause while the OTHER fiber is suspended with its exception waiting: as built the
+    exception-in-flight flag is one per interpreter, which is C08's recorded finding vm-wide-exception-in-flight-flag - the reference
+    machine marks those runs with the finding's trigger; checks of properties that do not list the finding leave that ending out)
+    two fibers each fail inside a try statement with a finally block and give control away FROM that finally block (the exception
+    is waiting); the other fiber does the same; then one of them is resumed and its exception goes on - caught by an outer handler of
+    that fiber, or uncaught.  What is pending (the exception, where it was raised, the handlers) belongs to the fiber: the report /
+    the handler must see the resumed fiber's own failure, with its own line."""
+    out = []
+    fails = ["throw", "index", "name", "native"]
+    for fa, fb_, order, ending in itertools.product(fails, fails, ("a-first", "b-first"), endings):
+        if fa == fb_ and fa != "throw":
+            continue
+        b = Builder()
+        F = lambda: b.v("Fiber")
+
+        def fail(kind, tag):
+            if kind == "throw": b.throw(lit("failure of " + tag))
+            elif kind == "index": b.print(idx(vec(lit(1)), lit(9)))
+            elif kind == "name": b.print(b.v("undefined_in_" + tag))
+            else: b.expr(inv(vec(), "pop"))
+
+        for tag, kind in (("A", fa), ("B", fb_)):
+            b.fn("inner" + tag, [])
+            b.var("local", lit("local of " + tag))
+            b.try_()
+            b.print(lit(tag + " about to fail"))
+            fail(kind, tag)
+            b.print(lit("unreached"))
+            b.finally_()
+            b.print(tup(lit(tag + " parks"), inv(F(), "yield", lit(tag + " parked"))))
+            b.print(tup(lit(tag + " resumes"), b.v("local")))
+            b.end()
+            b.ret(lit(tag + " returned"))
+            b.end()
+            b.fn("work" + tag, [])
+            if ending == "caught-in-fiber":
+                b.try_(); b.print(call(b.v("inner" + tag))); b.catch("e"); b.print(tup(lit(tag + " caught its own"), call(b.v("type"), b.v("e")), get(b.v("e"), "context") if kind != "throw" else b.v("e"))); b.end()
+            else:
+                b.print(call(b.v("inner" + tag)))
+            b.ret(lit(tag + " done"))
+            b.end()
+        b.var("fa", inv(F(), "new", b.v("workA")))
+        b.var("fb", inv(F(), "new", b.v("workB")))
+        first, second = ("fa", "fb") if order == "a-first" else ("fb", "fa")
+        b.print(inv(b.v(first), "call"))
+        b.print(inv(b.v(second), "call"))
+        if ending == "caught-by-caller":
+            b.try_(); b.print(inv(b.v(first), "call", lit("go on"))); b.catch("e"); b.print(tup(lit("main caught"), b.v("e") if (fa if first == "fa" else fb_) == "throw" else call(b.v("type"), b.v("e")))); b.end()
+            b.try_(); b.print(inv(b.v(second), "call", lit("go on"))); b.catch("e2"); b.print(tup(lit("main caught"), b.v("e2") if (fb_ if first == "fa" else fa) == "throw" else call(b.v("type"), b.v("e2")))); b.end()
+        else:
+            b.print(inv(b.v(first), "call", lit("go on")))
+            b.print(inv(b.v(second), "call", lit("go on")))
+        b.print(lit("end"))
+        out.append(("ileave:%s:%s:%s:%s" % (fa, fb_, order, ending), b.toks))
+    return out
+
+
 # ---------------------------------------------------------------------------------------------------
 # C14: import graphs over main + up to 3 modules
 BAD_SRC = "var = 1;\n"
